@@ -837,7 +837,7 @@ ERRX = "nope_undefined.q"
 def odd_docs(dm):
     """-> list of (name, xml, {event: kind}, init_kind)"""
     hdr = '<scxml xmlns="http://www.w3.org/2005/07/scxml" version="1.0" datamodel="%s"%s>'
-    dmdecl = '<datamodel><data id="x" expr="0"/><data id="loc" expr="0"/></datamodel>'
+    dmdecl = '<datamodel><data id="x" expr="0"/><data id="loc" expr="0"/><data id="sv" expr="\'scxml\'"/></datamodel>'
     probe = '<transition event="probe"><script>mark(\'alive\')</script></transition>'
     docs = []
 
@@ -879,6 +879,10 @@ def odd_docs(dm):
         ("delay-internal", '<send event="x" target="#_internal" delay="1s"/>'),
         ("ok", '<send event="x" delay="5ms" id="d1"/><cancel sendid="d1"/>'),
         ("ok", '<cancel sendid="never-sent"/>'),
+        ("ok", '<send event="x" targetexpr="\'#_scxml_\' + _sessionid"/>'),
+        ("free", '<send eventexpr="sv" targetexpr="sv" typeexpr="sv"/>'),          # the same variable in several slots
+        ("free", '<send event="x" targetexpr="sv" delayexpr="sv"/>'),
+        ("ok", '<send event="x" targetexpr="\'#_scxml_\' + _sessionid" delay="2ms" id="own"/>'),
         ("ok", '<send event="x" delay="3ms" id="d2"/>'),
         ("ok", '<send event="x" delay="3ms"/>'),
         ("ok", '<send event="x" delay="3ms" idlocation="loc"/>'),
@@ -1719,8 +1723,8 @@ def c16_spellings(ms):
     return out
 
 
-def c16_doc(name, forms, cancel_ids):
-    """forms: list of dict(k, id, kind, text, peer)"""
+def c16_doc(name, forms, cancel_ids, pairs=()):
+    """forms: list of dict(k, id, kind, text, peer); pairs: (ka, kb) -> a transition 'pair.ka.kb' executing both sends back to back"""
     hdr = '<scxml xmlns="http://www.w3.org/2005/07/scxml" version="1.0" datamodel="rfsm-expression" name="%s">' % name
     dm = '<datamodel><data id="x" expr="0"/><data id="n" expr="0"/><data id="peer" expr="0"/>'
     body = ""
@@ -1728,7 +1732,9 @@ def c16_doc(name, forms, cancel_ids):
         attrs = 'event="ev.%d"' % f["k"]
         if f["id"]:
             attrs += ' id="%s"' % f["id"]
-        if f["kind"] == "delay":
+        if f["kind"] == "none":
+            pass
+        elif f["kind"] == "delay":
             attrs += ' delay="%s"' % f["text"]
         elif f["kind"] == "expr":
             attrs += ' delayexpr="%s"' % f["text"]
@@ -1737,9 +1743,15 @@ def c16_doc(name, forms, cancel_ids):
             attrs += ' delayexpr="dl%d"' % f["k"]
         if f["peer"]:
             attrs += " targetexpr=\"'#_scxml_' + peer\""
-        body += ('<transition event="send.%d"><assign location="n" expr="n + 1"/><script>mark(\'S0\', %d, n, x)</script>'
-                 '<send %s><param name="from" expr="\'%s\'"/><param name="k" expr="%d"/><param name="i" expr="n"/><param name="v" expr="x"/></send>'
-                 '<script>mark(\'S1\', %d, n)</script></transition>') % (f["k"], f["k"], attrs, name, f["k"], f["k"])
+        blocks = getattr(c16_doc, "_blocks", None)
+        if blocks is None or f is forms[0]:
+            blocks = c16_doc._blocks = {}
+        blocks[f["k"]] = ('<assign location="n" expr="n + 1"/><script>mark(\'S0\', %d, n, x)</script>'
+                          '<send %s><param name="from" expr="\'%s\'"/><param name="k" expr="%d"/><param name="i" expr="n"/><param name="v" expr="x"/></send>'
+                          '<script>mark(\'S1\', %d, n)</script>') % (f["k"], attrs, name, f["k"], f["k"])
+        body += '<transition event="send.%d">%s</transition>' % (f["k"], blocks[f["k"]])
+    for (ka, kb) in pairs:
+        body += '<transition event="pair.%d.%d">%s%s</transition>' % (ka, kb, c16_doc._blocks[ka], c16_doc._blocks[kb])
     for cid in cancel_ids:
         body += ('<transition event="cancel.%s"><script>mark(\'C0\', \'%s\')</script><cancel sendid="%s"/>'
                  '<script>mark(\'C1\', \'%s\')</script></transition>') % (cid, cid, cid, cid)
@@ -1888,6 +1900,26 @@ def c16(tier, seed):
             job["sessions"] = [{"name": n, "xml": c16_doc(n, fl, [])} for n in ("A", "B")]
             jobs.append(job)
             meta[jid] = ("hand:%s:%s" % (nm, sp[1]), fl, cmds)
+    # fractional milliseconds: the delay is the written duration rounded to the millisecond; two sends executed back to back
+    # whose rounded delays differ must be delivered in the order of those delays (deterministic, no timing window)
+    FR = [("1.9ms", [19, 1, "ms"], "1ms", [1, 0, "ms"]), ("2.5ms", [25, 1, "ms"], "2ms", [2, 0, "ms"]),
+          ("0.0019s", [19, 4, "s"], "1ms", [1, 0, "ms"]), ("1.5ms", [15, 1, "ms"], "1ms", [1, 0, "ms"]),
+          ("0.6ms", [6, 1, "ms"], "", [0, 0, "ms"]), ("0.0007s", [7, 4, "s"], "", [0, 0, "ms"]), ("3.7ms", [37, 1, "ms"], "3ms", [3, 0, "ms"])]
+    for (ta, spa, tb, spb) in FR:
+        for rep in range(2 if tier == "quick" else 6):
+            for (tgt_peer) in (False, True):
+                jid = len(jobs) + 1
+                fa = {"k": 1, "id": "", "kind": "delay", "text": ta, "peer": tgt_peer, "spell": spa, "ms": 0}
+                fb = {"k": 2, "id": "", "kind": "delay" if tb else "none", "text": tb, "peer": tgt_peer, "spell": spb, "ms": 0}
+                sessions = [{"name": n, "xml": c16_doc(n, [fa, fb], [], pairs=[(1, 2)])} for n in ("A", "B")]
+                steps = [{"start": "A"}, {"start": "B"}, {"settle": 20},
+                         {"send": "A", "event": {"name": "init", "params": {"peer": "$sid:B"}}},
+                         {"send": "B", "event": {"name": "init", "params": {"peer": "$sid:A"}}}, {"settle": 20}]
+                for _ in range(3):
+                    steps += [{"send": "A", "event": "pair.1.2"}, {"sleep": 30}]
+                steps.append({"sleep": 600})
+                jobs.append({"id": jid, "sessions": sessions, "steps": steps, "timeout_ms": 60000})
+                meta[jid] = ("hand:fractional:%s/%s" % (ta, tb or "now"), [fa, fb], [])
     for b in behaviours:
         jid = len(jobs) + 1
         job, fl = c16_job(jid, b, rng)
